@@ -5,6 +5,7 @@ import "context"
 func init() {
 	verifRegister("VerifC06Wait", VerifC06Wait)
 	verifRegister("VerifC06SharedCtx", VerifC06SharedCtx)
+	verifRegister("VerifC06QueryCtx", VerifC06QueryCtx)
 }
 
 func verifClosed(ch <-chan struct{}) bool {
@@ -318,5 +319,74 @@ func VerifC06SharedCtx() {
 				vAssert("closed-after-ctx-end-2", closed)
 			}
 		}
+	}
+}
+
+// VerifC06QueryCtx: two WhenQuery subscriptions, the first one bound to a cancelation context, over
+// three single-state mutations; ending the context releases the first one (after a transition) and
+// must not disturb the second one in any later transition.
+func VerifC06QueryCtx() {
+	s := verifNewScn(2, false, false, false, false, true, false)
+	s.inject(false)
+	m := s.m
+	ctx, cancel := context.WithCancel(context.Background())
+	tB := m.Tick("B")
+	ch1 := m.WhenQuery(func(c Clock) bool { return c["B"] >= tB+2 }, ctx)
+	nq := vInt(1, 2)
+	var ch2, ch3 <-chan struct{}
+	ch2 = m.WhenQuery(func(c Clock) bool { return c["A"]%2 == 1 }, nil)
+	if nq == 2 {
+		ch3 = m.WhenQuery(func(c Clock) bool { return c["A"]%2 == 0 }, nil)
+	}
+	sub := len(s.tr.log)
+	step := func() {
+		st := s.names[vInt(0, 1)]
+		if vBool() {
+			m.Add1(st, nil)
+		} else {
+			m.Remove1(st, nil)
+		}
+	}
+	step()
+	ctxEnded := false
+	endLog := len(s.tr.log)
+	if vBool() {
+		cancel()
+		ctxEnded = true
+	}
+	step()
+	step()
+	vReach("queryctx")
+	iA, iB := verifIdx(m.stateNames, "A"), verifIdx(m.stateNames, "B")
+	held1, held2, held3, accSinceEnd := false, false, false, false
+	for j := sub; j < len(s.tr.log); j++ {
+		e := s.tr.log[j]
+		if e.kind != "end" || !e.acc || e.mut.IsCheck {
+			continue
+		}
+		if e.after[iB] >= tB+2 {
+			held1 = true
+		}
+		if e.after[iA]%2 == 1 {
+			held2 = true
+		} else {
+			held3 = true
+		}
+		if ctxEnded && j >= endLog {
+			accSinceEnd = true
+		}
+	}
+	c1, c2 := verifClosed(ch1), verifClosed(ch2)
+	vAssert("query1-no-lost-wakeup", !held1 || c1)
+	vAssert("query1-no-spurious-wakeup", !c1 || held1 || ctxEnded)
+	if accSinceEnd {
+		vAssert("query1-closed-after-ctx-end", c1)
+	}
+	vAssert("query2-no-lost-wakeup", !held2 || c2)
+	vAssert("query2-no-spurious-wakeup", !c2 || held2)
+	if nq == 2 {
+		c3 := verifClosed(ch3)
+		vAssert("query3-no-lost-wakeup", !held3 || c3)
+		vAssert("query3-no-spurious-wakeup", !c3 || held3)
 	}
 }
